@@ -118,6 +118,7 @@ def run(ctx):
         table.append({"case": cid, **{k: int(kv.get(k, "0") or 0) for k in METRICS},
                       "tokens": int(kv.get("tokens", "0") or 0), "lexed": int(kv.get("lexed", "0") or 0),
                       "heap_nodes": int(kv.get("heap", "0") or 0), "marked": int(kv.get("marked", "0") or 0),
+                      "uncovered_new_nodes": kv.get("uncovered", "-"), "stray_uncovered": kv.get("stray", "-"), "work_bound": kv.get("work_bound", "-"),
                       "repeat_chains": int(kv.get("chains", "0") or 0), "chain_max_elems": int(kv.get("chain_max_elems", "0") or 0),
                       "chain_max_height": int(kv.get("chain_max_height", "0") or 0), "balance_slack": int(kv.get("balance_slack", "0") or 0)})
         if len(samples) < 4 and evals % 13 == 1:
@@ -137,6 +138,10 @@ def run(ctx):
         ctx.log("calibrated thresholds written to " + THR)
     if not ctx.replay:
         ctx.oblige("run:all-cases-built", evals >= 84 and growth_n >= 36, "evals=%d growth=%d" % (evals, growth_n))
+    ctx.coverage["reparse_work_premise"] = {
+        "what": "premise of reparse_work_bound_partial: no uncovered node of the new tree fails to reach the edit (stray = 0)",
+        "cases_evaluated": len([r for r in table if r["stray_uncovered"] != "-"]),
+        "cases_where_it_holds": len([r for r in table if r["stray_uncovered"] == "0"])}
     ctx.coverage.update({
         "evaluations": evals + growth_n, "distinct_nontrivial": evals,
         "rule": "one evaluation = one (language, document size, edit position) re-parse on the real runtime plus one growth comparison per "
